@@ -169,6 +169,21 @@ def run(ctx: Ctx) -> None:
                 names = [n for n, _ in scen["inputs"]]
                 for kinds in ([{n: "list" for n in names}] if quick else [{n: "list" for n in names}, {n: "ndarray" for n in names}]):
                     traces.append(run_and_reload(scen["desc"], scen["inputs"], kinds, st, not quick, root))
+        # scoped (dotted) names: all names in one scope; several root inputs share the scope prefix
+        for sn in ("zip", "partial", "multi"):
+            if sn in scens:
+                sd, si = build.scoped(scens[sn]["desc"], scens[sn]["inputs"], "sc")
+                for st in storages[:2] if quick else storages:
+                    traces.append(run_and_reload(sd, si, {n: "list" for n, _ in si}, st, not quick, root))
+        # functions whose result is None: a stored None is a value, not a missing element
+        import copy
+        for sn in ("zip", "partial", "chain"):
+            if sn in scens:
+                nd = copy.deepcopy(scens[sn]["desc"])
+                nd["funcs"][0]["retnone"] = True
+                for st in storages:
+                    traces.append(run_and_reload(nd, scens[sn]["inputs"], {n: "list" for n, _ in scens[sn]["inputs"]}, st,
+                                                 not quick, root))
         cases = c01.export_universe(ctx, maxsize=2, rich=False, nshards=16)
         rng.shuffle(cases)
         for k, c in enumerate(cases[: (40 if quick else 600)]):
